@@ -283,6 +283,32 @@ function specialLayouts() {
     },
     expect: { A: [['({"a": "x"})', true], ['({"b": ["x"]})', false]], B: [['({"b": ["x"]})', true], ['({"a": "x"})', false]] },
   });
+  // a namespace import used as a value (`typeof Ns`) of a file that also passes a type of another file on, and the
+  // same type used as a type: re-export form × how the entry reaches the type × order of the two parsers
+  {
+    const forms = {
+      "export-from": 'export { Name } from "./b";',
+      "import-then-export": 'import { Name } from "./b";\nexport { Name };',
+      "export-star": 'export * from "./b";',
+      "export-type-from": 'export type { Name } from "./b";',
+    };
+    for (const [fname, form] of Object.entries(forms))
+      for (const via of ["direct", "through-a", "namespace-member"])
+        for (const nsFirst of [true, false]) {
+          const who = via === "namespace-member" ? "Ns.Name" : "Name";
+          const imp = via === "direct" ? 'import { Name } from "./b";\n' : via === "through-a" ? 'import { Name } from "./a";\n' : "";
+          const ps = nsFirst ? `Meta: typeof Ns, Who: ${who}` : `Who: ${who}, Meta: typeof Ns`;
+          out.push({
+            name: `namespace-as-value+type-passed-on:${fname}:${via}:${nsFirst ? "value-first" : "type-first"}`,
+            files: {
+              "entry.ts": `import * as Ns from "./a";\n${imp}export const Parsers = parse.buildParsers<{ ${ps} }>();`,
+              "a.ts": `${form}\nexport const version = 1 as const;\nexport const label = "x" as const;`,
+              "b.ts": "export type Name = { n: string };",
+            },
+            expect: { Who: [['({"n": "s"})', true], ['({"version": 1, "label": "x"})', false]], Meta: [['({"version": 1, "label": "x"})', true], ['({"version": 2, "label": "x"})', false]] },
+          });
+        }
+  }
   const unres = (name, files) => out.push({ name, files, expect: "diagnostic" });
   unres("import-non-exported-name", { "entry.ts": 'import { Hidden } from "./a";\nexport const Parsers = parse.buildParsers<{ A: Hidden }>();', "a.ts": "type Hidden = { h: string };\nexport type Shown = { s: string };" });
   unres("import-missing-file", { "entry.ts": 'import { A } from "./nope";\nexport const Parsers = parse.buildParsers<{ A: A }>();' });
@@ -405,7 +431,7 @@ export async function run() {
       }
       if (r.kind !== "code") {
         if (r.kind === "dead" || r.kind === "panic") continue;
-        rep.violation(`C09 collision layout is not compiled : ${sp.name}`, `layout ${sp.name} gives ${JSON.stringify(r.diagnostics?.[0] ?? r.kind).slice(0, 200)}`, detail);
+        rep.violation(`C09 resolvable special layout is not compiled : ${sp.name}`, `layout ${sp.name} gives ${JSON.stringify(r.diagnostics?.[0] ?? r.kind).slice(0, 200)}`, detail);
         continue;
       }
       const parsers = loadProgram(r.code).parsers;
